@@ -177,7 +177,9 @@ def c14_c(ctx: Ctx):
         else:
             out.append(ctx.viol(R, fi, c, f"recursion passes root={canon(r)}, which drops the accumulated prefix: at depth >= 3 the key strategy is asked about 'b.c' instead of 'a.b.c'"))
         a0, a1 = (canon(c.args[0]) if c.args else ""), (canon(c.args[1]) if len(c.args) > 1 else "")
-        if a0.startswith("src") and a1.startswith("dst"):
+        loopvals = {canon(n.target.elts[1]) for n in body_nodes(fi) if isinstance(n, ast.For) and isinstance(n.target, ast.Tuple)
+                    and len(n.target.elts) == 2 and canon(n.iter).startswith("src")}
+        if (a0.startswith("src") or a0 in loopvals) and a1.startswith("dst"):
             out.append(ctx.ok(R, fi, c, "recursion descends into (src[key], dst[key])"))
         else:
             out.append(ctx.viol(R, fi, c, f"recursion descends into ({a0}, {a1})"))
